@@ -726,6 +726,7 @@ func (s *sender) handleRcvdSegment(seg *segment) {
 
 			if datalen > ackLeft {
 				seg.data.TrimFront(int(ackLeft))
+				seg.sequenceNumber.UpdateForward(ackLeft)
 				break
 			}
 
